@@ -256,8 +256,10 @@ def run(ctx):
     if v_in is not None and (clamped or snapped):
         inner = v_in
         if inner[0] == "f" and inner[1] == "max2":
-            floor = [a for a in inner[2] if not (a[0] == "a" and "@L" in a[1])]
-            star = [a for a in inner[2] if a[0] == "a" and "@L" in a[1]]
+            def loop_val(a):  # the bisection result: a loop-carried value (head atom, or opaque when the loop can break)
+                return (a[0] == "a" and "@L" in a[1]) or (a[0] == "opaque" and str(a[1]).startswith("loop:"))
+            floor = [a for a in inner[2] if not loop_val(a)]
+            star = [a for a in inner[2] if loop_val(a)]
             if len(floor) == 1 and len(star) == 1:
                 # floor == beta + m with m the (possibly rescaled) minimum step
                 m_ = T.sub(floor[0], beta)
